@@ -159,6 +159,24 @@ fn lane_shapes(tier: Tier) -> Vec<Vec<usize>> {
     v
 }
 
+fn has_extreme_ties(x: &RT, axis: usize, is_max: bool) -> bool {
+    let mut keep = x.shape.clone();
+    keep[axis] = 1;
+    for l in 0..crate::rt::numel(&keep) {
+        let mut idx = crate::rt::unravel(l, &keep);
+        let mut vals = Vec::new();
+        for i in 0..x.shape[axis] {
+            idx[axis] = i;
+            vals.push(x.at(&idx));
+        }
+        let ext = if is_max { vals.iter().cloned().fold(f64::NEG_INFINITY, f64::max) } else { vals.iter().cloned().fold(f64::INFINITY, f64::min) };
+        if vals.iter().filter(|v| **v == ext).count() > 1 {
+            return true;
+        }
+    }
+    false
+}
+
 fn arg(op: &'static str, tier: Tier) -> Vec<Case> {
     let mut out = Vec::new();
     for dt in [Dt::F32, Dt::I32, Dt::I64, Dt::F64, Dt::U8, Dt::I8] {
@@ -172,25 +190,13 @@ fn arg(op: &'static str, tier: Tier) -> Vec<Case> {
                 for axis in &axes {
                     for keepdims in [None, Some(0i64), Some(1)] {
                         for last in [None, Some(0i64), Some(1)] {
-                            let cls = format!(
-                                "{}; {}; select_last_index {}",
-                                match axis {
-                                    None => "axis default",
-                                    Some(a) if *a < 0 => "negative axis",
-                                    _ => "axis",
-                                },
-                                match keepdims {
-                                    None => "keepdims default",
-                                    Some(0) => "keepdims=0",
-                                    _ => "keepdims=1",
-                                },
-                                match last {
-                                    None => "default",
-                                    Some(0) => "0",
-                                    _ => "1",
-                                }
-                            );
-                            let mut c = Case::new(op, cls, vec![Some(x.clone())]);
+                            // value feature: does the extreme value occur more than once in some lane?
+                            let ax = axis.unwrap_or(0);
+                            let ax = if ax < 0 { ax + rank } else { ax } as usize;
+                            let ties = has_extreme_ties(&x, ax, op == "ArgMax");
+                            let cls = if last == Some(1) { "select_last_index 1" } else { "" };
+                            let vcls = if ties { "extreme value occurs more than once along the axis" } else { "unique extreme value" };
+                            let mut c = Case::new(op, cls, vec![Some(x.clone())]).vclass(vcls);
                             if let Some(a) = axis {
                                 c = c.attr_i("axis", *a);
                             }
